@@ -35,8 +35,10 @@ import (
 
 type c22View struct {
 	honest uint16 // bit j: has the vote of honest voter j (never the own bit)
-	byz    uint8  // bit b: has the Byzantine vote for block b (b = 1..4)
+	byz    uint8  // bit b: has the Byzantine vote for block b (b = 1..4); c22Twice: each of them arrived twice
 }
+
+const c22Twice = 1 << 7 // the Byzantine votes of the set are delivered twice (re-sent / relayed by two peers)
 
 func (v c22View) sub(w c22View) bool { return v.honest&^w.honest == 0 && v.byz&^w.byz == 0 }
 func (v c22View) String() string     { return fmt.Sprintf("{honest:%b byz-blocks:%05b}", v.honest, v.byz) }
@@ -49,8 +51,19 @@ func c22PopCount(x uint8) int {
 	return n
 }
 
-// Byzantine vote sets: subsets of `blocks` of size <= maxByz, as bit masks over block indices
-func c22ZSets(blocks []int, maxByz int) []uint8 {
+// Byzantine vote sets: subsets of `blocks` of size <= maxByz, as bit masks over block indices; with
+// twiceAll every non-empty set also with each vote delivered twice, otherwise only the set of both leaves
+func c22ZSets(blocks []int, maxByz int, twiceAll bool) []uint8 {
+	out := c22ZSetsPlain(blocks, maxByz)
+	for _, z := range out {
+		if z != 0 && (twiceAll || z == 1<<2|1<<4) {
+			out = append(out, z|c22Twice)
+		}
+	}
+	return out
+}
+
+func c22ZSetsPlain(blocks []int, maxByz int) []uint8 {
 	var out []uint8
 	for m := 0; m < 1<<len(blocks); m++ {
 		var z uint8
@@ -150,9 +163,11 @@ func (L *c22Layer) round1(nd *c21Node, i int, view c22View) {
 			_, _ = nd.svc.validateVoteMessage(peer.ID("h"), c21VoteMsg(j, prevote, tree.vote(L.pv[j]), 1, 0))
 		}
 	}
-	for b := 1; b <= 4; b++ {
-		if view.byz&(1<<b) != 0 {
-			_, _ = nd.svc.validateVoteMessage(peer.ID("byz"), c21VoteMsg(L.h, prevote, tree.vote(b), 1, 0))
+	for rep := 0; rep < 2; rep++ {
+		for b := 1; b <= 4; b++ {
+			if view.byz&(1<<b) != 0 && (rep == 0 || view.byz&c22Twice != 0) {
+				_, _ = nd.svc.validateVoteMessage(peer.ID("byz"), c21VoteMsg(L.h, prevote, tree.vote(b), 1, 0))
+			}
 		}
 	}
 }
@@ -247,9 +262,11 @@ func c22RunConfig(r *verifmc.Report, pool *c22Pool, h int, pref []int, seenPrima
 				_, _ = nd.svc.validateVoteMessage(peer.ID("h"), c21VoteMsg(j, precommit, tree.vote(b), 1, 0))
 			}
 		}
-		for b := 1; b <= 4; b++ {
-			if k.z&(1<<b) != 0 {
-				_, _ = nd.svc.validateVoteMessage(peer.ID("byz"), c21VoteMsg(h, precommit, tree.vote(b), 1, 0))
+		for rep := 0; rep < 2; rep++ {
+			for b := 1; b <= 4; b++ {
+				if k.z&(1<<b) != 0 && (rep == 0 || k.z&c22Twice != 0) {
+					_, _ = nd.svc.validateVoteMessage(peer.ID("byz"), c21VoteMsg(h, precommit, tree.vote(b), 1, 0))
+				}
 			}
 		}
 		res := 0
@@ -415,7 +432,7 @@ func TestVerif_C22_layered(t *testing.T) {
 	r := verifmc.NewReport("C22", "layered-one-round", "model_checking")
 	defer r.Write()
 	maxByz := verifmc.Pick(2, 3)
-	r.Rule = fmt.Sprintf("one complete voting round on the tree root->A->A1, root->B->B1 for voter sets of 3 honest + 1 Byzantine (all 8 assignments of preferred forks x has each voter seen the primary's prevote before prevoting) and 4 honest + 1 Byzantine (thorough: also 5+1; preferred forks up to renaming of honest voters): every choice of (prevote view at precommit time: any subset of the other honest prevotes and any set of <= %d Byzantine prevotes) x (prevote and precommit views at finalisation time: any superset / any subset of the existing honest precommits and any set of <= %d Byzantine precommits; for the larger sets Byzantine votes are for the two leaves) is evaluated with the real determinePreVote / defineRoundVotes condition + determinePreCommit / attemptToFinalize on a real Service; Byzantine-built commits (every target block, existing honest precommits once or twice + 1-2 Byzantine ones) are given to handleCommitMessage; for every tuple of achievable precommits the blocks that different honest voters can finalise must be on one chain. A state = one (voter, views) decision context; a transition = one evaluated decision", maxByz, maxByz)
+	r.Rule = fmt.Sprintf("one complete voting round on the tree root->A->A1, root->B->B1 for voter sets of 3 honest + 1 Byzantine (all 8 assignments of preferred forks x has each voter seen the primary's prevote before prevoting) and 4 honest + 1 Byzantine (thorough: also 5+1; preferred forks up to renaming of honest voters): every choice of (prevote view at precommit time: any subset of the other honest prevotes and any set of <= %d Byzantine prevotes) x (prevote and precommit views at finalisation time: any superset / any subset of the existing honest precommits and any set of <= %d Byzantine precommits; for the larger sets Byzantine votes are for the two leaves; the equivocation on both leaves also with every vote delivered twice, thorough: every non-empty set also delivered twice) is evaluated with the real determinePreVote / defineRoundVotes condition + determinePreCommit / attemptToFinalize on a real Service; Byzantine-built commits (every target block, existing honest precommits once or twice + 1-2 Byzantine ones) are given to handleCommitMessage; for every tuple of achievable precommits the blocks that different honest voters can finalise must be on one chain. A state = one (voter, views) decision context; a transition = one evaluated decision", maxByz, maxByz)
 	r.Assumption("within a round honest decisions are layered (precommit <- prevote view; finalise <- prevote+precommit view) and a voter's precommit depends only on its own view, so choosing the received sets per decision covers every interleaving, delay, reordering and loss; seeing the primary's vote only makes a voter prevote like a voter of the other preference (covered by the preference assignments)")
 	pool := &c22Pool{nodes: map[[3]int][]*c21Node{}}
 	type job struct {
@@ -428,9 +445,9 @@ func TestVerif_C22_layered(t *testing.T) {
 	allBlocks, leaves := []int{1, 2, 3, 4}, []int{2, 4}
 	sizes := verifmc.Pick([]int{3, 4}, []int{3, 4, 5})
 	for _, h := range sizes {
-		zs := c22ZSets(allBlocks, maxByz)
+		zs := c22ZSets(allBlocks, maxByz, verifmc.Thorough())
 		if h >= 4 {
-			zs = c22ZSets(leaves, 2)
+			zs = c22ZSets(leaves, 2, verifmc.Thorough())
 		}
 		if h == 3 {
 			// all 8 assignments x has each non-primary voter seen the primary's prevote first
